@@ -25,7 +25,7 @@ def floors(tier):
     k = 1 if tier == "quick" else 8
     return {"classifications": 300 * k, "classified_paged": 100 * k, "classified_plain": 100 * k, "histories": 500 * k,
             "pages_served": 1200 * k, "items_yielded": 1500 * k, "empty_intermediate_pages": 50 * k, "client:aio": 150 * k,
-            "client:rest": 100 * k, "map_histories": 10 * k, "retry_forwarded_probes": 40 * k, "caller_request_objects_checked": 400 * k}
+            "client:rest": 100 * k, "map_histories": 10 * k, "retry_forwarded_probes": 40 * k, "retry_none_probes": 15 * k, "caller_request_objects_checked": 400 * k}
 
 
 def plan(seed, tier):
@@ -110,7 +110,11 @@ def run_case(case):
                 timeout = rng.choice([None, 30.0, 75.0])
                 # the caller's retry= must reach the fetch of every page: one UNAVAILABLE is injected before a later page
                 fault = rng.randint(1, npages - 1) if (field and kind != "rest" and npages >= 2 and rng.random() < 0.35) else None
-                calls.append({**base, "kind": kind, "retry_fault_page": fault, "request": rdm.b64(x.SerializeToString()),
+                # ... and an explicit retry=None on a method WITH a default retry policy must reach them too: the injected fault surfaces
+                none_fault = None
+                if fault is None and field and kind != "rest" and npages >= 2 and m.name in api.info.get("default_retry_methods", []) and rng.random() < 0.5:
+                    none_fault = rng.randint(1, npages - 1)
+                calls.append({**base, "kind": kind, "retry_fault_page": fault, "retry_none_fault_page": none_fault, "request": rdm.b64(x.SerializeToString()),
                               "pages": [rdm.b64(y.SerializeToString()) for y in pages],
                               "pages_json": [json_format.MessageToJson(y) for y in pages], "npages": npages,
                               "mode": rng.choice(["items", "pages"]), "timeout": timeout,
@@ -180,6 +184,17 @@ def judge(model, call, r, bump):
         v.append({"clause": clause, "detail": detail})
 
     bump("classifications")
+    nfp = call.get("retry_none_fault_page")
+    if nfp is not None:
+        bump("retry_none_probes")
+        err = r.get("error") or {}
+        nreq = len(r.get("requests") or [])
+        if err.get("code") != "UNAVAILABLE" and "ServiceUnavailable" not in (err.get("mro") or []):
+            bad("explicit-retry-none-not-forwarded-to-later-page", {"fault_before_page": nfp, "outcome": err or "listing completed", "requests_seen": nreq,
+                                                                    "pages": call["npages"]})
+        elif nreq != nfp + 1:
+            bad("explicit-retry-none-not-forwarded-to-later-page", {"fault_before_page": nfp, "requests_seen": nreq, "expected": nfp + 1})
+        return v
     if r.get("error") and call.get("retry_fault_page") is not None:
         bad("retry-not-forwarded-to-later-page", {"fault_before_page": call["retry_fault_page"], "error": r["error"]})
         return v
@@ -321,6 +336,8 @@ def in_runner(script):
         kw = {"metadata": [tuple(x) for x in call["metadata"]]}
         if call["timeout"] is not None:
             kw["timeout"] = call["timeout"]
+        if call.get("retry_none_fault_page") is not None:
+            kw["retry"] = None
         if call.get("retry_fault_page") is not None:
             from google.api_core import exceptions as core_exceptions
             from google.api_core import retry as retries
@@ -334,6 +351,8 @@ def in_runner(script):
         reps = [{"payloads": [p]} for p in call["pages"]]
         if call.get("retry_fault_page") is not None:
             reps.insert(call["retry_fault_page"], {"code": "UNAVAILABLE"})
+        if call.get("retry_none_fault_page") is not None:
+            reps.insert(call["retry_none_fault_page"], {"code": "UNAVAILABLE"})
         return reps
 
     def collect_grpc(call, mark):
